@@ -620,7 +620,12 @@ ImplGetOrCreate(d, p, dev) ==
          IF r.k = "ref" THEN Out(d, IF Target(d.objs, r).k = "none" THEN ResErr ELSE ResOk(0))
          ELSE IF r.k # "none" THEN Out(d, ResOk(0))
          ELSE LET inh  == EffRes(d.objs, p)
-                  init == IF ~dev.shadow /\ inh.k = "dict" THEN inh ELSE DictO(<<>>)
+                  \* category dictionaries behind references are copied too (never write to a shared one)
+                  own  == IF inh.k = "dict"
+                          THEN DictO([cat \in DOMAIN inh.v |-> IF Target(d.objs, inh.v[cat]).k = "dict"
+                                                               THEN Target(d.objs, inh.v[cat]) ELSE inh.v[cat]])
+                          ELSE DictO(<<>>)
+                  init == IF ~dev.shadow THEN own ELSE DictO(<<>>)
                   s    == PageSlot(d, p)
               IN Out([d EXCEPT !.objs = Put(@, s, DictO(Put(pg.v, "Resources", init)))], ResOk(0))
 
